@@ -65,6 +65,10 @@ def check(prog: Program, rep):
     providers.numeric_type(prog, rep, "C08.R2", MODELS)
     rep.rule("C08.R3", "k=None -> width of the graph without ignored edges", floor=2)
     k_none_rule(prog, rep, "C08.R3")
+    rep.rule("C08.R3w", "the width that k=None / the lower bound rely on counts every non-ignored element (per-edge, per-condensation-edge and per-SCC demands; C09.R7)", floor=4)
+    from rules.c09 import width_demands
+    from rules.common import RuleProxy
+    width_demands(prog, RuleProxy(rep, "C08.R3w"), "C09.R7")
     rep.rule("C08.R4", "the ignore set and options derive only from this call's arguments (no write to caller objects or shared defaults)", floor=6)
     from rules.c18 import class_inputs_not_mutated
     class_inputs_not_mutated(prog, rep, "C08.R4", MODELS)
